@@ -1,4 +1,5 @@
 import logging
+import re
 from functools import reduce
 from typing import List, Mapping, Optional, Tuple, Union
 
@@ -24,6 +25,23 @@ def unescape(text: str) -> str:
     return reduce(
         lambda acc, replacement: acc.replace(*replacement), replacements, text
     )
+
+
+_string_escape_sequences = {
+    quote_mark: re.compile(
+        "\\\\([" + re.escape("".join(escaped_characters) + quote_mark) + "])"
+    )
+    for quote_mark in ("'", '"')
+}
+
+
+def unescape_string(text: str, quote_mark: str) -> str:
+    """Unescapes content of a string literal delimited by given quote mark
+
+    Done in a single pass, so that an escaped backslash is never combined with
+    the character following it into another escape sequence.
+    """
+    return _string_escape_sequences[quote_mark].sub(r"\1", text)
 
 
 IGNORED_TERMINAL = object()
@@ -165,8 +183,7 @@ class _TreeVisitor(TagTemplateParserVisitor):
         elif ctx.STRING_VALUE():
             str_val = ctx.STRING_VALUE().getText()
             assert len(str_val) >= 2
-            str_val = str_val[1:-1]
-            return unescape(str_val)
+            return unescape_string(str_val[1:-1], str_val[0])
         raise NotImplementedError("Unknown argument value token: " + ctx.getText())
 
     def visitArgument(
